@@ -101,6 +101,21 @@ func (g *FuncGen) specType(ty string, pkg *types.Package) (types.Type, Sort) {
 			cands = append(cands, p)
 			cands = append(cands, p.Imports()...)
 		}
+		// ... and what those import (std spec files mention e.g. hash.Hash, which callers import indirectly)
+		seenPkg := map[*types.Package]bool{}
+		for _, p := range cands {
+			seenPkg[p] = true
+		}
+		for depth := 0; depth < 2; depth++ {
+			for _, p := range append([]*types.Package(nil), cands...) {
+				for _, q := range p.Imports() {
+					if !seenPkg[q] {
+						seenPkg[q] = true
+						cands = append(cands, q)
+					}
+				}
+			}
+		}
 		want := g.aliasTargets(pn, pkg)
 		for _, p := range cands {
 			if p.Name() == pn || p.Path() == pn || want[p.Path()] {
